@@ -315,7 +315,9 @@ class Gen:
         if c == "not":
             return ["lnot", t, self.cond(d + 1)]
         n = rs.range(2, 3)
-        return [rs.choice(["any", "all"]), t, [self.cond(d + 2) if rs.below(2) else ["tobool", t, self.bit(3)] for _ in range(n)]]
+        # (elements may be compile-time constants: a constant False in all() / True in any() decides the result)
+        elems = [["cbool", t, rs.below(2)] if rs.below(4) == 0 else self.cond(d + 2) if rs.below(2) else ["tobool", t, self.bit(3)] for _ in range(n)]
+        return [rs.choice(["any", "all"]), t, elems]
 
 
 # ---- rendering ----------------------------------------------------------------------------------
@@ -375,6 +377,8 @@ def r(e, bit_as_cond=False):
         return f"{r(e[2])}[{r(e[3])}]"
     if op == "tobool":
         return r(e[2])
+    if op == "cbool":
+        return "True" if e[2] else "False"
     if op == "cmp":
         s = {"lt": "<", "le": "<=", "gt": ">", "ge": ">=", "eq": "==", "ne": "!="}[e[2]]
         return f"({r(e[3])} {s} {r(e[4])})"
@@ -422,7 +426,7 @@ def ports_used(e, acc=None):
 
 
 def count(e):
-    if e[0] in ("port", "ci", "cv"):
+    if e[0] in ("port", "ci", "cv", "cbool"):
         return 1
     n = 1
     for x in e[1:]:
@@ -440,7 +444,7 @@ def count(e):
 
 
 def ops_in(e, acc):
-    if e[0] in ("port", "ci", "cv"):
+    if e[0] in ("port", "ci", "cv", "cbool"):
         return acc
     acc.add(e[0] if e[0] != "cmp" else "cmp:" + e[2])
     for x in e[1:]:
@@ -543,6 +547,8 @@ def ev(e, env):
         return (ev(e[2], env) >> ev(e[3], env)) & 1
     if op == "tobool":
         return ev(e[2], env)
+    if op == "cbool":
+        return int(bool(e[2]))
     if op == "cmp":
         a, b = e[3], e[4]
         if typ(a)[0] == "BV":
